@@ -145,7 +145,7 @@ def literal_case(ctx):
             built[form] = (text, pgx.glr(pg, ws=None), pgx.lr(pgx.grammar(text), ws=None))
         except Exception as e:  # noqa: BLE001
             errs[form] = (text, e)
-    case0 = {"texts": texts, "declared": render(False), "inline": render(True)}
+    case0 = {"texts": texts, "declared": render(False), "inline": render(True), "g": g.to_json(), "kind": "literal"}
     if "declared" in errs:
         e = errs["declared"][1]
         # equal texts up to case etc. are legitimately refused; LR conflicts are not this property's business
@@ -274,7 +274,7 @@ def keyword_case(ctx, mon):
         if ignore_case and rng.random() < 0.5:
             w = "".join(c.upper() if rng.random() < 0.4 else c for c in w)
         inputs.add(w)
-    case0 = {"grammar": text, "tdefs": {k: v.to_json() for k, v in tdefs.items()}, "ignore_case": ignore_case}
+    case0 = {"grammar": text, "tdefs": {k: v.to_json() for k, v in tdefs.items()}, "ignore_case": ignore_case, "g": g.to_json(), "kind": "keyword"}
     for w in sorted(inputs):
         chart = cfg.Chart(g, w, ignore_case=ignore_case)
         want = chart.is_sentence()
@@ -316,4 +316,50 @@ def keyword_case(ctx, mon):
 
 
 def replay(case, ctx):
-    ctx.count("replay_reruns_nothing")
+    """Re-executes the stored case: same grammar text(s), same input."""
+    if "input" not in case or "g" not in case:
+        return
+    g = cfg.G.from_json(case["g"])
+    w = case["input"]
+    if case.get("kind") == "literal":
+        want = cfg.Chart(g, w, skip=cfg.skip_none).is_sentence()
+        outs = {}
+        for form in ("declared", "inline"):
+            try:
+                glr = pgx.glr(pgx.grammar(case[form]), ws=None)
+                lr = pgx.lr(pgx.grammar(case[form]), ws=None)
+            except Exception:  # noqa: BLE001
+                continue
+            a = glrobs.parse_glr(glr, w)
+            k, v = pgx.outcome(lr.parse, w)
+            outs[form] = (a.kind, a.len if a.kind == "forest" else None, k, repr(v) if k == "ret" else None)
+            if a.kind != "exc" and (a.kind == "forest") != want:
+                ctx.violation("literal-match-differs", case, "GLR (%s form) %s %r, a literal scanner %s it" % (form, a.kind, w, want))
+        if len(outs) == 2 and outs["inline"] != outs["declared"]:
+            ctx.violation("inline-differs-from-declared", case, "inline %s, declared %s" % (outs["inline"], outs["declared"]))
+        return
+    ic = case.get("ignore_case", False)
+    chart = cfg.Chart(g, w, ignore_case=ic)
+    glr = pgx.glr(pgx.grammar(case["grammar"], ignore_case=ic))
+    a = glrobs.parse_glr(glr, w)
+    if a.kind != "exc" and (a.kind == "forest") != chart.is_sentence():
+        ctx.violation("keyword-match-differs", case, "GLR %s %r, the reference says sentence=%s" % (a.kind, w, chart.is_sentence()))
+    tdefs = {k: cfg.TDef.from_json(v) for k, v in case["tdefs"].items()}
+    mon = LRMonitor(record_events=True)
+    mon.install()
+    try:
+        from parglare.grammar import STOP
+
+        lr = pgx.lr(pgx.grammar(case["grammar"], ignore_case=ic))
+        pgx.outcome(lr.parse, w)
+        for (ps, state, pos, toks) in mon.events:
+            if ps is not lr:
+                continue
+            expected = [t.name for t in state.actions if t is not STOP]
+            wantt, reason, explicit, nmatch = ref_scan(expected, tdefs, {}, w, pos, True, ic, STOP in state.actions)
+            got = sorted((t.symbol.name, t.value) for t in toks)
+            if got != wantt:
+                ctx.violation("keyword-token-choice-differs:" + reason, case, "at %d the scanner returned %s, documented order gives %s" % (pos, got, wantt))
+                break
+    finally:
+        mon.uninstall()
